@@ -482,7 +482,9 @@ class C18(Prop):
             'pseudo nodes, SMT via env or config, blocked cores/gpus, agent layouts, services, backup nodes with ssh '
             'probe outcomes, requested size given or derived), about 15% malformed (unset variables, unreadable files, '
             'bad lines, non-uniform files, oversized requests, layouts that leave no node), 15% preceded by an earlier '
-            'initialisation in the same process, plus fixed hostlist-expansion cases; non-trivial = the real '
+            'initialisation in the same process, plus fixed hostlist-expansion cases; thorough tier adds the exhaustive '
+            'small scope of _filter_nodes (1-4 nodes x requested 0-5 given/derived x 0-3 agent nodes x service x backup '
+            'with every ok/fail probe pattern); non-trivial = the real '
             'constructor succeeded on an allocation of >= 2 nodes and truncated the list, reserved agent/service '
             'nodes, blocked resources, probed backups or merged repeated lines')
     trusted = [
@@ -527,6 +529,28 @@ class C18(Prop):
                         prior['cfg']['services'] = True
                     case['prior'] = prior
                 yield case
+
+        if tier == 'thorough':
+            # exhaustive small scope of the glue around the parsers: every
+            # combination of allocation size, requested size (given / derived),
+            # number of node-bound sub-agents, service node, backup probing
+            import itertools
+            for n in (1, 2, 3, 4):
+                names = ['n%d' % i for i in range(n)]
+                for want, agents, services, backup in itertools.product(range(0, 6), range(0, 4), (False, True), (0, 1)):
+                    plans = [None] if not backup else \
+                        [list(p) for p in itertools.product(('ok', 'fail'), repeat=min(n, 3))] + [['timeout']]
+                    for plan in plans:
+                        for derived in (False, True):
+                            cfg = {'nodes': 0 if derived else want, 'cores': max(want, 1) * 2 - (1 if derived else 0),
+                                   'gpus': 0, 'cpn': 0, 'gpn': 0, 'backup': backup, 'lfs': 0, 'mem': 0,
+                                   'n_partitions': 1, 'fake': False, 'agents': ['node'] * agents, 'services': services,
+                                   'blocked_cores': None, 'blocked_gpus': None, 'smt_env': None, 'smt_arch': None}
+                            case = {'rm': 'TORQUE', 'cfg': cfg,
+                                    'env': {'nodefile': {'lines': [[nm] for nm in names for _ in range(2)]}}}
+                            if plan:
+                                case['access'] = plan
+                            yield case
 
     # ------------------------------------------------------------------ impl
     def impl_setup(self):
